@@ -311,3 +311,28 @@ func censusJSONTags(w *World, r *Report) []*Obligation {
 	}
 	return out
 }
+
+
+// intTable reads the integers of a composite-literal initialiser: int literals or big.NewInt(K).
+func (w *World) intTable(pkgPath, name string) ([]string, error) {
+	init, _ := w.findVarInit(pkgPath, name)
+	cl, ok := init.(*ast.CompositeLit)
+	if !ok {
+		return nil, fmt.Errorf("%s is not initialised by a composite literal", name)
+	}
+	var out []string
+	for _, el := range cl.Elts {
+		x := el
+		if call, ok := x.(*ast.CallExpr); ok && len(call.Args) == 1 {
+			if se, ok := call.Fun.(*ast.SelectorExpr); ok && se.Sel.Name == "NewInt" {
+				x = call.Args[0]
+			}
+		}
+		bl, ok := x.(*ast.BasicLit)
+		if !ok || bl.Kind != token.INT {
+			return nil, fmt.Errorf("%s: element %s is not an integer literal", name, types.ExprString(el))
+		}
+		out = append(out, bl.Value)
+	}
+	return out, nil
+}
